@@ -90,7 +90,7 @@ class World:
 
     def _probe(self, event, args, kwargs):
         uid = getattr(event, '_vuid', None)
-        if uid is not None:
+        if uid is not None and not self.events[uid].get('system'):
             self.events[uid]['dispatched'] += 1
             self.L('D', uid)
             return
@@ -223,8 +223,21 @@ class World:
             return ('unknown', None)
         return None
 
+    def _sys_uid(self, event):
+        """started/stopped events handled by program handlers get a ghost uid on first sight."""
+        if event.name not in ('started', 'stopped'):
+            return None
+        self.nuid += 1
+        event._vuid = self.nuid
+        self.events[self.nuid] = {'name': event.name, 'prio': 0, 'parent': None, 'by': None, 'flags': {}, 'dispatched': 1,
+                                  'cancelled': False, 'flush_depth_at_fire': 0, 'spec': {'name': event.name}, 'system': True}
+        self.objs[self.nuid] = event
+        return self.nuid
+
     def _run_plain(self, hd, event, comp):
         uid = getattr(event, '_vuid', None)
+        if uid is None:
+            uid = self._sys_uid(event)
         if uid is None:
             return None
         hid = hd['hid']
@@ -249,6 +262,8 @@ class World:
 
     def _run_gen(self, hd, event, comp):
         uid = getattr(event, '_vuid', None)
+        if uid is None:
+            uid = self._sys_uid(event)
         if uid is None:
             return
         hid = hd['hid']
